@@ -548,11 +548,13 @@ void enum_ranges(std::string const &ename)
       vf::count(std::string("enum_range/class/") + cls);
       for (walk w : all_walks)
         judge_arith_sequence(e + "/make_range_start_end/sequence/" + cls, w, r, s, static_cast<i128>(en) - s + 1, 16, conv);
-      // observed: size() of an enum range is not named by the statement
-      VF_COUNT("enum_range/size/observed");
+      // size() of an enum range: the statement spells the size clause out for integer ranges; for an enum range the number
+      // of enumerators of a closed sub-range always fits, and "the value of size()" is what the property observes - judged
+      VF_COUNT("enum_range/size/judged");
       if (static_cast<i128>(r.size()) != static_cast<i128>(en) - s + 1)
-        vf::observation("enum_::range::size() of [" + std::to_string(s) + "," + std::to_string(en) + "] over " + ename + " is " +
-                        s128(static_cast<i128>(r.size())) + " (observed only)");
+        vf::violation(e + "/make_range_start_end/size/" + cls, "mismatch",
+                      "size() of [" + std::to_string(s) + "," + std::to_string(en) + "] is " + s128(static_cast<i128>(r.size())) + ", the range enumerates " +
+                          std::to_string(en - s + 1) + " enumerators");
     }
     {
       vf::operands(s, N - 1, 1);
@@ -561,6 +563,8 @@ void enum_ranges(std::string const &ename)
       VF_COUNT("enum_range/make_range_start");
       for (walk w : all_walks)
         judge_arith_sequence(e + "/make_range_start/sequence", w, r, s, static_cast<i128>(N) - s, 16, conv);
+      if (static_cast<i128>(r.size()) != static_cast<i128>(N) - s)
+        vf::violation(e + "/make_range_start/size", "mismatch", "size() is " + s128(static_cast<i128>(r.size())) + " for " + std::to_string(N - s) + " enumerators");
     }
     if (s > 0)
     {
